@@ -163,6 +163,8 @@ bool Json::Private::readToken()
               }
               break;
             default:
+              if(*pos.pos == '\n' || (*pos.pos == '\r' && pos.pos[1] != '\n'))
+                ++pos.line;
               value.append('\\');
               value.append(*pos.pos);
               ++pos.pos;
